@@ -458,3 +458,26 @@ impl Board {
         }
     }
 }
+
+#[cfg(cozy_chess_verif)]
+impl Board {
+    /// Verification hook: run one of the per-piece generators.
+    pub fn verif_add_legals<F: FnMut(PieceMoves) -> bool>(
+        &self, which: u8, in_check: bool, mask: BitBoard, listener: &mut F
+    ) -> bool {
+        match (which, in_check) {
+            (0, false) => self.add_pawn_legals::<_, false>(mask, listener),
+            (0, true) => self.add_pawn_legals::<_, true>(mask, listener),
+            (1, false) => self.add_knight_legals::<_, false>(mask, listener),
+            (1, true) => self.add_knight_legals::<_, true>(mask, listener),
+            (2, false) => self.add_slider_legals::<slider::Bishop, _, false>(mask, listener),
+            (2, true) => self.add_slider_legals::<slider::Bishop, _, true>(mask, listener),
+            (3, false) => self.add_slider_legals::<slider::Rook, _, false>(mask, listener),
+            (3, true) => self.add_slider_legals::<slider::Rook, _, true>(mask, listener),
+            (4, false) => self.add_slider_legals::<slider::Queen, _, false>(mask, listener),
+            (4, true) => self.add_slider_legals::<slider::Queen, _, true>(mask, listener),
+            (_, false) => self.add_king_legals::<_, false>(mask, listener),
+            (_, true) => self.add_king_legals::<_, true>(mask, listener)
+        }
+    }
+}
